@@ -518,9 +518,9 @@ func (c *Ctx) taintedSessionKeys() map[string]bool {
 	return out
 }
 
-// redirectPathOf returns the value stored into the RedirectPath field of the
+// redirectOptField returns every value stored into the named field of the
 // RedirectOptions passed to a Redirect call.
-func redirectOptField(opts ssa.Value, field string) (ssa.Value, bool) {
+func redirectOptField(opts ssa.Value, field string) ([]ssa.Value, bool) {
 	u, ok := opts.(*ssa.UnOp)
 	if !ok {
 		return nil, false
@@ -529,19 +529,28 @@ func redirectOptField(opts ssa.Value, field string) (ssa.Value, bool) {
 	if !ok || a.Referrers() == nil {
 		return nil, false
 	}
-	var val ssa.Value
+	var vals []ssa.Value
 	for _, r := range *a.Referrers() {
-		fa, ok := r.(*ssa.FieldAddr)
-		if !ok || fieldName(fa) != field || fa.Referrers() == nil {
-			continue
-		}
-		for _, rr := range *fa.Referrers() {
-			if st, ok := rr.(*ssa.Store); ok {
-				val = st.Val
+		switch x := r.(type) {
+		case *ssa.FieldAddr:
+			if fieldName(x) != field || x.Referrers() == nil {
+				continue
+			}
+			for _, rr := range *x.Referrers() {
+				if st, ok := rr.(*ssa.Store); ok {
+					vals = append(vals, st.Val)
+				}
+			}
+		case *ssa.Store:
+			// whole-struct store (copy of a parameter or another literal): opaque
+			if x.Addr == a {
+				if _, isP := x.Val.(*ssa.Parameter); isP {
+					return nil, false
+				}
 			}
 		}
 	}
-	return val, true
+	return vals, true
 }
 
 // C15: client-supplied return targets never redirect off-site.
@@ -559,26 +568,34 @@ func C15(c *Ctx) {
 			n++
 			name := FuncName(fn)
 			pos := posf(c, call)
-			rp, ok := redirectOptField(Arg(call, 2), "RedirectPath")
+			rps, ok := redirectOptField(Arg(call, 2), "RedirectPath")
 			if !ok {
 				r.Unknown("C15.redirect-path", name, "RedirectPath", pos, "RedirectOptions is not a local literal; cannot see how RedirectPath is built")
 				continue
 			}
-			if rp == nil {
+			if len(rps) == 0 {
 				r.Ok("C15.redirect-path", name, "RedirectPath", pos, "no RedirectPath set")
 				continue
 			}
 			var srcs []string
-			for _, o := range c.fieldOrigins(rp) {
-				if s := c.clientSource(o, tk); s != "" {
-					srcs = append(srcs, s)
+			safe := true
+			for _, rp := range rps {
+				tainted := false
+				for _, o := range c.fieldOrigins(rp) {
+					if s := c.clientSource(o, tk); s != "" {
+						srcs = append(srcs, s)
+						tainted = true
+					}
+				}
+				if tainted && !c.safePrefixed(rp, tk, 0) {
+					safe = false
 				}
 			}
 			if len(srcs) == 0 {
 				r.Ok("C15.redirect-path", name, "RedirectPath", pos, "not client-controlled")
 				continue
 			}
-			if c.safePrefixed(rp, tk, 0) {
+			if safe {
 				r.Ok("C15.redirect-path", name, "RedirectPath", pos, "client data only after a constant/configured same-site prefix ("+strings.Join(uniq(srcs), ", ")+")")
 				continue
 			}
